@@ -142,7 +142,41 @@ func genStream(r *rec.Rand, universe int, sorted bool, failures bool) []chunk {
 	return cs
 }
 
+// chunksOf splits sorted values into k chunks of comparable size.
+func chunksOf(vals []int, k int) []chunk {
+	var cs []chunk
+	for i := 0; i < k; i++ {
+		lo, hi := i*len(vals)/k, (i+1)*len(vals)/k
+		cs = append(cs, chunk{Kind: 0, Vals: append([]int{}, vals[lo:hi]...)})
+	}
+	return cs
+}
+
 func genFP(r *rec.Rand) fpCase {
+	if r.Chance(1, 6) {
+		// long operands in several chunks: the output crosses the batching threshold (100) several
+		// times; for a difference the subtracted stream runs dry early so that the base is drained
+		// chunk by chunk across batches
+		c := fpCase{Kind: 3, Op: r.Intn(3)}
+		base := genSorted(r, 600, 420)
+		for len(base) < 150 {
+			base = genSorted(r, 600, 420)
+		}
+		c.Streams = append(c.Streams, chunksOf(base, r.Range(3, 6)))
+		switch c.Op {
+		case 2:
+			c.Streams = append(c.Streams, chunksOf(genSorted(r, 40, 6), r.Range(1, 2)))
+		case 1:
+			other := append([]int{}, base...)
+			rec.Shuffle(r, other)
+			other = other[:len(other)*3/4]
+			sort.Ints(other)
+			c.Streams = append(c.Streams, chunksOf(other, r.Range(2, 5)))
+		default:
+			c.Streams = append(c.Streams, chunksOf(genSorted(r, 600, 200), r.Range(1, 4)))
+		}
+		return c
+	}
 	c := fpCase{Kind: 3, Op: r.Intn(3)}
 	n := 2
 	if c.Op != 2 {
@@ -212,6 +246,12 @@ func runFP(w *rec.Writer, c fpCase) {
 			fastPathDifference(ctx, ss, out)
 		}
 	}()
+	// the producer runs to its end first (the output channel is large enough): a batch that was sent
+	// must not change afterwards, whenever the consumer gets to read it
+	select {
+	case <-done:
+	case <-ctx.Done():
+	}
 	// consume: values in order of arrival until the first error message (what every consumer of
 	// these channels does), then the rest is drained
 	var vals []int
